@@ -511,7 +511,7 @@ func (ex *Exec) aeadSeal(key []*Term, dst Value, nonce, pt, ad Value, who string
 	} else if k, ok := ex.constOf(ps.Len); ok {
 		n = k
 	}
-	if n >= 0 && n <= ex.MaxDense {
+	if n >= 0 && (n <= ex.MaxDense || ps.Arr == nil || ps.Arr.isDense()) {
 		e.ptDense = ex.sliceTerms(pt)
 		// deterministic: same inputs, same ciphertext
 		a := ex.app("ct", int(n)+16, key, nt, adt, e.ptDense)
